@@ -156,6 +156,14 @@ CLAIMS["C03"] = dict(
          "requires resolve(resolve(m)) == resolve(m), and runs the model on the dump of the resolved resources (must be returned unchanged).",
     note=TRUST + "partial: idempotence is proved for stable values only; text assembled by a function or fetched from SSM that is itself an SSM reference or a differently-cased boolean word is a recorded known finding (not a fixed point in the code either).")
 
+CLAIMS["C15"] = dict(
+    technique="Lean 4 proof (generic casting re-applied to its own dump; leaf validators accept their own output) + round-trip oracle on the implementation over every stage and field type",
+    text="(in progress)",
+    note=TRUST + "partial: the typed resource models are validated by pydantic-core, which is trusted; their round trip is checked on the implementation only.")
+
+for _k in os.environ.get("VERIF_UNCLAIMED", "C15").split(","):
+    CLAIMS.pop(_k, None)  # in progress: not claimed until its theorems exist
+
 DESIGN_REF = {k: f"DESIGN.md §5 {k}" for k in CLAIMS}
 
 
